@@ -22,7 +22,7 @@ def build(w, c):
     return law
 
 
-def convert(law, kind, tmpdir, tag):
+def convert(law, kind, tmpdir, tag, inplace=False):
     from astropy import units as u
     from sedfitter.extinction import Extinction
     if kind == 'pickle':
@@ -43,6 +43,14 @@ def convert(law, kind, tmpdir, tag):
         law2 = Extinction.from_file(p) if kind == 'file' else Extinction.from_file(p, columns=(2, 0))
         os.remove(p)
         return law2
+    if inplace and kind in ('units_nm_si', 'scale3', 'scale_third'):
+        # the setters are public API: re-assign on the SAME object, after it has already been evaluated
+        law.get_av(np.array([0.55]) * u.micron)
+        if kind == 'units_nm_si':
+            law.chi = law.chi.to(u.m ** 2 / u.kg)
+        else:
+            law.chi = law.chi * (3.0 if kind == 'scale3' else 1.0 / 3.0)
+        return law
     new = Extinction()
     if kind == 'units_nm_si':
         new.wav = law.wav.to(u.nm)
@@ -79,7 +87,7 @@ def replay_chunk(behs, tmpdir, seed):
         try:
             law = build(b['w'], b['c'])
             for ci, k in enumerate(b['convs']):
-                law = convert(law, k, tmpdir, '%d_%d_%d' % (os.getpid(), bi, ci))
+                law = convert(law, k, tmpdir, '%d_%d_%d' % (os.getpid(), bi, ci), inplace=bool((bi + ci + seed) % 2))
             qs = sorted(int(x) for x in b['q'])
             got = query(law, qs, (bi + seed) % 4)
             got1 = [float(query(law, [x], (bi + seed + 1) % 4)[0]) for x in qs]
@@ -121,7 +129,7 @@ def record(seeds, tmpdir, maxrows):
                 k = rng.choice(['pickle', 'table', 'file', 'file_cols', 'units_nm_si', 'units_cm', 'scale3', 'scale_third'])
                 ev = {'ev': 'Conv', 'kind': k, 'raised': 0}
                 try:
-                    law = convert(law, k, tmpdir, '%d_%d' % (sd, step))
+                    law = convert(law, k, tmpdir, '%d_%d' % (sd, step), inplace=rng.random() < 0.5)
                 except Exception:
                     ev['raised'] = 1
                 tr.append(ev)
